@@ -129,12 +129,33 @@ func c19(r *Report, s *Sem) {
 							releases = append(releases, in)
 						}
 					case *ssa.Defer:
-						if mc, ok := x.Call.Value.(*ssa.MakeClosure); ok {
-							eachInstr(mc.Fn.(*ssa.Function), func(in2 ssa.Instruction) {
-								if u, ok := in2.(*ssa.UnOp); ok && u.Op == token.ARROW && onLock(u.X) {
-									releases = append(releases, in)
+						// the deferred function: a literal, or a function value that may be a literal handed out by an
+						// acquire helper (`unlock, err := c.lockLifetime(ctx); defer unlock()`)
+						releasing := func(v ssa.Value) bool {
+							found := false
+							for _, l := range leaves(v) {
+								mc, ok := stripConv(l).(*ssa.MakeClosure)
+								if !ok {
+									continue
 								}
-							})
+								eachInstr(mc.Fn.(*ssa.Function), func(in2 ssa.Instruction) {
+									if u, ok := in2.(*ssa.UnOp); ok && u.Op == token.ARROW && onLock(u.X) {
+										found = true
+									}
+								})
+							}
+							return found
+						}
+						if ph, isPhi := stripConv(x.Call.Value).(*ssa.Phi); isPhi {
+							// the function value depends on the path: it releases only where the releasing literal arrives
+							for i, e := range ph.Edges {
+								if releasing(e) {
+									pr := ph.Block().Preds[i]
+									releases = append(releases, pr.Instrs[len(pr.Instrs)-1])
+								}
+							}
+						} else if releasing(x.Call.Value) {
+							releases = append(releases, in)
 						}
 					}
 				})
